@@ -7,7 +7,7 @@ import RaftVerif.Proofs.Restart
 
 `vote_grant_sound` speaks about one call of the RequestVote handler.  This file lifts it to every
 run of `SV.stepEvent`: any sequence of RequestVote / RequestPreVote / AppendEntries /
-InstallSnapshot / TimeoutNow messages, role changes and restarts, with a store write failing or the
+InstallSnapshot / TimeoutNow messages, local snapshots, role changes and restarts, with a store write failing or the
 process dying at any write ordinal of any handler (the next process starts on the writes that were
 performed).  Along such a run
 
@@ -324,6 +324,28 @@ theorem preVotePlan_plain (v : Vol) (q : VoteReq) : PlainPlan v (preVotePlan v q
 theorem timeoutNowPlan_plain (v : Vol) : PlainPlan v (timeoutNowPlan v) :=
   ⟨[], [], v.term, rfl, Or.inl ⟨rfl, rfl⟩, by simp, fun _ => rfl⟩
 
+theorem snapPlan_plain (cf : Cfg) (d : Durable) (v : Vol) (fpos : Nat × Nat) (fdata : List Nat) :
+    PlainPlan v (snapPlan cf d v fpos fdata) := by
+  unfold snapPlan
+  have hv1 : (if fpos.1 > v.snapIdx then { v with snapIdx := fpos.1, snapTerm := fpos.2 } else v).term = v.term := by
+    split <;> rfl
+  split
+  · exact ⟨[], [], v.term, rfl, Or.inl ⟨rfl, rfl⟩, by simp, fun _ => rfl⟩
+  · split
+    · exact ⟨[], [], v.term, rfl, Or.inl ⟨rfl, rfl⟩, by simp, fun _ => rfl⟩
+    · simp only []
+      split
+      · refine ⟨[], _, v.term, (List.nil_append _).symm, Or.inl ⟨rfl, rfl⟩, ?_, fun _ => hv1⟩
+        intro s hs
+        simp only [List.mem_cons, List.mem_nil_iff, or_false] at hs
+        subst hs; exact ⟨rfl, rfl⟩
+      · refine ⟨[], _, v.term, (List.nil_append _).symm, Or.inl ⟨rfl, rfl⟩, ?_, fun _ => hv1⟩
+        intro s hs
+        simp only [List.mem_cons, List.mem_nil_iff, or_false] at hs
+        rcases hs with hs | hs
+        · subst hs; exact ⟨rfl, rfl⟩
+        · subst hs; exact ⟨rfl, hv1⟩
+
 theorem isVol2_term (v : Vol) (q : ISReq) : (isVol2 v q).term = if q.term > v.term then q.term else v.term := by
   unfold isVol2
   by_cases hd : q.term > v.term
@@ -598,6 +620,7 @@ theorem planOf_ok (w : World) (hs : w.v.term = w.d.curTerm) (e : Event) (p : Pla
   | append a f' c' => simp [planOf] at h; obtain ⟨rfl, _, _⟩ := h; exact plain_ok _ _ _ hs (aePlan_plain _ _ _ _)
   | install q f' c' => simp [planOf] at h; obtain ⟨rfl, _, _⟩ := h; exact plain_ok _ _ _ hs (isPlan_plain _ _ _ _)
   | timeoutNow => simp [planOf] at h; obtain ⟨rfl, _, _⟩ := h; exact plain_ok _ _ _ hs (timeoutNowPlan_plain _)
+  | snapshot f' c' => simp [planOf] at h; obtain ⟨rfl, _, _⟩ := h; exact plain_ok _ _ _ hs (snapPlan_plain _ _ _ _ _)
   | restart => simp [planOf] at h
   | damagedRestart => simp [planOf] at h
   | setRole _ _ _ => simp [planOf] at h
@@ -613,8 +636,8 @@ theorem boot_synced (cf : Cfg) (d : Durable) : Synced (boot cf d).1 ∧ (boot cf
 
 theorem restart_world_synced (cf : Cfg) (d : Durable) :
     Synced (match restart cf d with
-      | none => (⟨cf, d, emptyVol, true⟩ : World)
-      | some (v, _) => ⟨cf, d, v, false⟩) := by
+      | none => (⟨cf, d, emptyVol, true, (0, 0), []⟩ : World)
+      | some (v, calls) => ⟨cf, d, v, false, (fsmFresh d v calls).1, (fsmFresh d v calls).2⟩) := by
   cases hr : restart cf d with
   | none => intro h; simp at h
   | some r =>
@@ -689,6 +712,7 @@ theorem step_inv (w : World) (e : Event) (hs : Synced w) :
     | append a f c => exact plan _ _ _ (planOf_ok w hsync (.append a f c) _ _ _ rfl)
     | install q f c => exact plan _ _ _ (planOf_ok w hsync (.install q f c) _ _ _ rfl)
     | timeoutNow => exact plan _ _ _ (planOf_ok w hsync .timeoutNow _ _ _ rfl)
+    | snapshot f c => exact plan _ _ _ (planOf_ok w hsync (.snapshot f c) _ _ _ rfl)
 
 /-- the grant an observation reports, if any: (term, candidate) -/
 def grantOf (e : Event) (o : Obs) : Option (Nat × Nat) :=
@@ -769,6 +793,7 @@ theorem grant_step (w : World) (e : Event) (hs : Synced w) (t c : Nat)
   | append a f c' => simp [grantOf] at hg
   | install q f c' => simp [grantOf] at hg
   | timeoutNow => simp [grantOf] at hg
+  | snapshot f' c' => simp [grantOf] at hg
   | restart => simp [grantOf] at hg
   | damagedRestart => simp [grantOf] at hg
   | setRole _ _ _ => simp [grantOf] at hg
